@@ -49,6 +49,10 @@ SELECTIONS = [
     ("only normal\nonly tutorial3\n", {"vm1": "only CentOS\n", "vm2": "only Win10\n", "vm3": "only Ubuntu\n"}, "net1 net2 net3"),
     ("only normal\nonly tutorial1\n", {"vm1": "only CentOS\n", "vm2": "only Win10\n", "vm3": "only Ubuntu\n"}, "net1"),
     ("only normal\nonly tutorial1,tutorial3\n", {"vm1": "only CentOS\n", "vm2": "only Win10\n", "vm3": "only Ubuntu\n"}, "net1 net2"),
+    ("only leaves\nonly tutorial_gui\n", {"vm1": "only CentOS\n", "vm2": "only Win10\n", "vm3": "only Ubuntu\n"}, "net1 net2"),
+    ("only leaves\nonly tutorial_get\n", {"vm1": "only CentOS\n", "vm2": "only Win10\n", "vm3": "only Ubuntu\n"}, "net1 net2"),
+    ("only normal\nonly tutorial1\n", {"vm1": "only CentOS\n", "vm2": "only Win10\n", "vm3": "only Ubuntu\n"}, "net0"),
+    ("only normal\nonly tutorial3\n", {"vm1": "only CentOS\n", "vm2": "only Win10\n", "vm3": "only Ubuntu\n"}, "cluster1.net6 cluster1.net7"),
 ]
 
 
